@@ -212,16 +212,17 @@ def one(ctx, rng, xr):
             if ip is None:
                 (rec.ok("dpm", key) if np.isnan(o) else bad("dpm", o, "nan", "value-without-interior-peak"))
             else:
-                oks, cond = False, False
+                oks, cond, illc = False, False, False
                 for k in acceptable:
                     r, R, tot = P.dir_moment_at(E[k], th)
                     if R <= 1e-4 * tot:
+                        illc = True      # an acceptable (tied) peak whose mean direction is decided by rounding
                         continue
                     cond = True
                     t = 1e-4 + np.degrees((5e-6 if f32data else 1e-12) * tot / R) * 4
                     if circ_diff(o, r) <= t and 0 <= o <= 360:
                         oks = True
-                if not cond:
+                if not cond or (not oks and illc and (np.isnan(o) or 0 <= o <= 360)):
                     rec.skip("dpm", "resultant near zero at the peak")
                 elif oks:
                     rec.ok("dpm", key)
